@@ -29,7 +29,7 @@ fn gen_program(rng: &mut Rng, return_in_for: bool) -> (Vec<String>, bool, usize)
         let mut body = vec![];
         gen_block(&mut g, 1, &mut body);
         // make sure most functions have a return somewhere at the end
-        if g.rng.chance(2, 3) {
+        if g.rng.chance(1, 2) {
             let nb: usize = body[0][1..].parse().unwrap();
             body[0] = format!("B{}", nb + 1);
             body.push("R".into());
